@@ -368,6 +368,7 @@ def gen_sheet(r):
         body = ('<xsl:template match="/"><out><xsl:for-each select="//*|//@*"><k n="{name()}" c="{count(key(\'k\',name()))}" '
                 'first="{generate-id()=generate-id(key(\'k\',name())[1])}" last="{generate-id()=generate-id(key(\'k\',name())[last()])}"/></xsl:for-each>'
                 '<xsl:for-each select="key(\'t\',3)|key(\'t\',0)"><t p="{count(preceding::text())}"><xsl:value-of select="substring(.,1,9)"/></t></xsl:for-each></out></xsl:template>')
+        flags.add("x")
         return "keys", sheet(body, out, top), flags
     elif k == 2:
         body = ('<xsl:template match="/"><out><xsl:copy-of select="/*"/><x/><xsl:copy-of select="//comment()|//processing-instruction()[name()!=\'xml-stylesheet\']"/>'
@@ -387,6 +388,7 @@ def gen_sheet(r):
         top = '<xsl:strip-space elements="*"/><xsl:preserve-space elements="c p:e"/>'
         body = ('<xsl:template match="/"><out n="{count(//text())}"><xsl:for-each select="//node()"><xsl:value-of select="position()"/>:'
                 '<xsl:value-of select="name()"/>:<xsl:value-of select="count(preceding-sibling::node())"/>;</xsl:for-each></out></xsl:template>')
+        flags.add("x")
         return "strip", sheet(body, out, top), flags
     elif k == 6:
         n = r.choice([1, 3, 20, 60])
@@ -441,6 +443,10 @@ def gen_sheet(r):
     else:
         body = ('<xsl:template match="/"><out par="{$par}" n="{$num * 2}" t="{count(//node())}"><xsl:value-of select="concat($par, \'|\', string($num))"/></out></xsl:template>')
         cls = "params"
+    if 'method="xml"' in out:
+        flags.add("x")
+    if 'method="text"' in out and 'encoding="UTF-8"' in out:
+        flags.add("T8")      # not passed to the driver; class K05e when the source has supplementary characters
     return cls, sheet(body, out), flags
 
 
@@ -448,19 +454,22 @@ NS_AXIS_SHEET = sheet('<xsl:template match="/"><out><xsl:for-each select="//*"><
 ATTR_ORDER_SHEET = sheet('<xsl:template match="/"><out><xsl:for-each select="//@*"><xsl:value-of select="name()"/>,</xsl:for-each></out></xsl:template>')
 DOCTYPE_SHEET = sheet('<xsl:template match="/"><out n="{count(/node())}" p="{count(/*/preceding::node())}"/></xsl:template>')
 UENT_SHEET = sheet('<xsl:template match="/"><out u="{unparsed-entity-uri(\'pic\')}"/></xsl:template>')
+TEXT_SHEET = sheet('<xsl:template match="/"><xsl:value-of select="/a"/></xsl:template>', '<xsl:output method="text" encoding="UTF-8"/>')
 PI = '<?xml-stylesheet type="text/xsl" href="main.xsl"?>'
 
 KNOWN_REPLAYS = {
     "K05a": (NS_AXIS_SHEET, PI + '<a xmlns:p="u"><b xmlns="d"><c/></b></a>'),
     "K05b": (ATTR_ORDER_SHEET, PI + '<a z="1" b="2"/>'),
     "K05c": (DOCTYPE_SHEET, '<!DOCTYPE a [<!ENTITY e "zz">]>' + PI + '<a><b/></a>'),
+    "K05e": (TEXT_SHEET, PI + "<a>" + "a" * 511 + "\U0001F600b</a>"),
     "K05d": (UENT_SHEET, '<!DOCTYPE a [<!NOTATION gif SYSTEM "gif"><!ENTITY pic SYSTEM "http://x/pic.gif" NDATA gif>]>' + PI + '<a/>'),
 }
 
 
 def t_line(cid, seed, sh, src, params, flags):
     ps = ",".join("%s=%s" % (k, v.encode().hex()) for k, v in params) or "-"
-    return "%s T %d %s %s %s %s" % (cid, seed, sh.encode("utf-8").hex(), src.encode("utf-8", "surrogatepass").hex(), ps, "".join(sorted(flags)) or "-")
+    return "%s T %d %s %s %s %s" % (cid, seed, sh.encode("utf-8").hex(), src.encode("utf-8", "surrogatepass").hex(), ps,
+                                   "".join(sorted(f for f in flags if len(f) == 1)) or "-")
 
 
 def attrs_unsorted(top):
@@ -777,13 +786,14 @@ def evaluate(ctx, r, impl, model, xalan, scale, state):
     nT = 70 * scale
     t_cases = []
     for key, (sh, src) in KNOWN_REPLAYS.items():
-        t_cases.append({"id": "tk" + key, "sheet": sh, "src": src, "params": [], "flags": set(), "cls": "known:" + key,
-                        "srcflags": {"K05a": {"nsaxis"}, "K05b": {"attrorder"}, "K05c": {"doctype"}, "K05d": {"doctype", "uent"}}[key], "seed": 1})
+        t_cases.append({"id": "tk" + key, "sheet": sh, "src": src, "params": [], "flags": {"x"} if key != "K05e" else set(), "cls": "known:" + key,
+                        "srcflags": {"K05a": {"nsaxis"}, "K05b": {"attrorder"}, "K05c": {"doctype"}, "K05d": {"doctype", "uent"}, "K05e": {"textastral"}}[key], "seed": 1})
     for i in range(nT):
         cls, sh, flags = gen_sheet(r)
         srcflags = set()
         # substring() cuts surrogate pairs (C02 K6/K7): no astral characters where the stylesheet uses it
-        ALPHA_CUR[0] = ALPHA_BMP if cls in ("docorder", "keys", "text", "union", "longtext") else ALPHA
+        astral_text = "T8" in flags and r.random() < 0.25
+        ALPHA_CUR[0] = ALPHA_BMP if (cls in ("docorder", "keys", "text", "union", "longtext") or ("T8" in flags and not astral_text)) else ALPHA
         unsorted = r.random() < 0.06
         top = [("p", "xml-stylesheet", 'type="text/xsl" href="main.xsl"')] + gen_doc(r, sorted_attrs=not unsorted, size=r.choice([3, 8, 20, 40, 40]))
         if unsorted and attrs_unsorted(top):
@@ -793,6 +803,8 @@ def evaluate(ctx, r, impl, model, xalan, scale, state):
             root = [t for t in top if t[0] == "e"][0]
             root[3].insert(0, ("e", "b", [], [("t", rand_text(r, "long"))]))
         ALPHA_CUR[0] = ALPHA
+        if astral_text and any(ord(ch) > 0xFFFF for ch in str(top)):
+            srcflags.add("textastral")
         variants = r.random() < 0.45
         doctype = r.random() < 0.08
         src = serialise(r, top, variants=variants, doctype=doctype, flags=srcflags)
@@ -808,9 +820,17 @@ def evaluate(ctx, r, impl, model, xalan, scale, state):
     # malformed source: every form must fail
     t_cases.append({"id": "tbad", "sheet": gen_sheet(r)[1], "src": PI + "<a><b></a>", "params": [], "flags": set(), "cls": "malformed-source", "srcflags": set(), "seed": 3})
     lines = [t_line(c["id"], c["seed"], c["sheet"], c["src"], c["params"], c["flags"]) for c in t_cases]
-    rc_i, res_i, raw_i = core.run_lines_parallel(impl, lines, timeout=2400)
+    rc_i, res_i, raw_i = core.run_lines_parallel(impl, lines, timeout=300 * scale)
     if rc_i != 0:
-        orc.append(("crash", "harness exited with status %d in mode T: %s" % (rc_i, raw_i[-300:]), ""))
+        # a process died or ran into the time limit: run the cases without a result one by one
+        for c, line in zip(t_cases, lines):
+            if c["id"] + "/capi.prebuiltstream_todata" in res_i:
+                continue
+            rc1, res1, raw1 = core.run_lines(impl, line + "\n", timeout=120)
+            if rc1 == 0:
+                res_i.update(res1)
+            else:
+                orc.append(("crash", "the driver %s on this case: %s" % ("did not finish within 120 s" if rc1 == 124 else "exited with status %d" % rc1, raw1[-300:]), line))
     by_case = {}
     for k, v in res_i.items():
         cid, _, form = k.partition("/")
@@ -865,6 +885,9 @@ def evaluate(ctx, r, impl, model, xalan, scale, state):
             rest = []
             for form, v in diffs:
                 srcform = form.split(".")[0]
+                if "textastral" in sf:
+                    state["known_hits"]["K05e"] = state["known_hits"].get("K05e", 0) + 1
+                    continue
                 if srcform in RAW_DOM_FORMS and "cdata" in sf:
                     state["info"]["cdata-in-unnormalised-dom"] = state["info"].get("cdata-in-unnormalised-dom", 0) + 1
                     continue
